@@ -158,8 +158,11 @@ Proof.
   { unfold gid. destruct (Nat.le_gt_cases 8 m).
     - right. apply torn_id_full; assumption.
     - left. now apply torn_id_small. }
-  assert (Hix : ix st' = ins_ix (ix st) gk gid pos).
-  { unfold st', crash_append, open_part. cbn [ix]. rewrite Hscan, replay_snoc, <- Hi. apply exec_ins. }
+  assert (Hix : ix st' = ix st \/ (gid <> 0 /\ ix st' = ins_ix (ix st) gk gid pos)).
+  { unfold st', crash_append, open_part. cbn [ix]. rewrite Hscan, replay_snoc, <- Hi.
+    destruct (N.eq_dec gid 0) as [Z|NZ].
+    - left. rewrite Z. apply exec_ins_zero.
+    - right. split; [assumption|]. now apply exec_ins. }
   assert (Hsg : exists X, seg st' = seg st ++ X).
   { unfold st', crash_append, open_part. cbn [seg]. rewrite Hscan, scan_end_snoc.
     unfold se_size. cbn [se_off se_key]. unfold pos. rewrite Hs.
@@ -177,17 +180,50 @@ Proof.
     destruct (find_id_spec _ _ _ H0 Hnz) as [A D]. pose proof (assoc_key_in _ _ _ A) as Ain.
     destruct (Hlt _ _ Ain) as [Hid0 _].
     assert (Hne : id0 <> gid) by (destruct Hgid; lia).
-    rewrite Hix. split; [|split].
-    + rewrite find_id_ins_other; [assumption | exact Hk0 |].
-      intros id1 A1. destruct (N.eq_dec id1 0); [now left | right].
-      apply assoc_key_in in A1. destruct (Hlt _ _ A1). destruct Hgid; lia.
-    + destruct (Hoff _ _ Ain) as [Hf [off (Ha & Hge & rest & Hr)]].
+    destruct (Hoff _ _ Ain) as [Hf [off (Ha & Hge & rest & Hr)]].
+    assert (Hkey : forall o, o = off -> key_at (seg st') o = k0).
+    { intros o ->. destruct Hsg as [X HX]. unfold key_at. rewrite HX, skipn_app_le, Hr, <- app_assoc; [apply Hf|].
+      eapply skipn_some_le; [exact Hr | now apply framed_nonnil]. }
+    assert (Hoffnz : (off =? 0) = false) by (apply N.eqb_neq; unfold HDR in Hge; lia).
+    destruct Hix as [Hix | [Hgnz Hix]]; rewrite Hix.
+    + split; [assumption|]. split; [|assumption].
       unfold key_of. destruct (id0 =? 0) eqn:Z; [apply N.eqb_eq in Z; contradiction|].
-      rewrite Hix, find_off_ins.
-      destruct (gid =? id0) eqn:G; [apply N.eqb_eq in G; congruence|].
-      unfold find_off. rewrite Ha.
-      destruct (off =? 0) eqn:Z2; [apply N.eqb_eq in Z2; unfold HDR in Hge; lia|].
-      destruct Hsg as [X HX]. unfold key_at. rewrite HX, skipn_app_le, Hr, <- app_assoc; [apply Hf|].
-      eapply skipn_some_le; [exact Hr | now apply framed_nonnil].
-    + now rewrite is_deleted_ins_other.
+      rewrite Hix. unfold find_off. rewrite Ha, Hoffnz. now apply Hkey.
+    + split; [|split].
+      * rewrite find_id_ins_other; [assumption | exact Hk0 |].
+        intros id1 A1. destruct (N.eq_dec id1 0); [now left | right].
+        apply assoc_key_in in A1. destruct (Hlt _ _ A1). destruct Hgid; lia.
+      * unfold key_of. destruct (id0 =? 0) eqn:Z; [apply N.eqb_eq in Z; contradiction|].
+        rewrite Hix, find_off_ins.
+        destruct (gid =? id0) eqn:G; [apply N.eqb_eq in G; congruence|].
+        unfold find_off. rewrite Ha, Hoffnz. now apply Hkey.
+      * now rewrite is_deleted_ins_other.
+Qed.
+
+(** Repaired behaviour (fix: id-0 insert entries are not indexed): a create torn INSIDE its
+    flag+id bytes, with ids below 256, leaves the index exactly as it was — whatever Recover or
+    a later index compaction (both are [replay] of scanned entries) make of that entry. *)
+Lemma crash_create_in_id_bytes_index_unchanged p st body m :
+  PInv p st -> N.of_nat (length body) < 128 -> seq st < 256 -> (m < 8)%nat ->
+  let st' := crash_append p st (Ins (seq st) (mk_key body)) (S m) in
+  ix st' = ix st /\ seq st' = seq st.
+Proof.
+  intros I Hb Hq Hm st'.
+  pose proof I as [[L (Hs & Hw & Hi & Hsq)] _ _ _ _ _ _].
+  assert (H64 : seq st < 2 ^ 64) by (change (2 ^ 64) with 18446744073709551616; lia).
+  set (k := mk_key body).
+  assert (Hse : small_entry (Ins (seq st) k)) by (split; [assumption | exists body; auto]).
+  assert (Hn : (S m <= length (enc (Ins (seq st) k)))%nat).
+  { cbn [enc length]. rewrite app_length, be64_length. lia. }
+  set (pos := HDR + N.of_nat (length (bytes_of L))). set (gk := read_key (firstn (m - 8) k)).
+  assert (Hscan : scan (seg st ++ firstn (S m) (enc (Ins (seq st) k)))
+                  = with_offsets L HDR ++ [{| se_flag := FLAG_INS; se_id := 0; se_off := pos; se_key := gk |}]).
+  { rewrite Hs, torn_scan by assumption. rewrite scan_go_1_torn_ins, torn_id_app.
+    rewrite torn_id_small by assumption. reflexivity. }
+  assert (Hix : ix st' = ix st).
+  { unfold st', crash_append, open_part. cbn [ix]. fold k. rewrite Hscan, replay_snoc, <- Hi. apply exec_ins_zero. }
+  split; [assumption|].
+  unfold st', crash_append, open_part. cbn [seq]. fold k. rewrite Hscan, max_ins_snoc. cbn [se_flag se_id].
+  change (FLAG_INS =? FLAG_INS) with true. cbn [andb].
+  destruct (max_ins (with_offsets L HDR) <? 0) eqn:E; [lia|]. now rewrite Hsq.
 Qed.
